@@ -86,6 +86,9 @@ def run(ctx):
         else:
             schema = lvs.gen_schema(rng, with_signers=(si % 4 == 3))
         text = lvs.schema_text(schema)
+        FNS_LIB, FNS_REF = lvs.fns_for(schema)
+        if schema.get('default_fns'):
+            ctx.event('schema-checked-with-the-built-in-functions')
         w = {'schema': text}
         tot_alts, max_len_ = lvs.alt_counts(schema)
         if tot_alts > 120 or max_len_ > 9:
@@ -94,7 +97,7 @@ def run(ctx):
         try:
             with monitors.Steps(reach=reach):
                 model = compile_lvs(text)
-                checker = Checker(model, lvs.USER_FNS)
+                checker = Checker(model, FNS_LIB)
         except (SemanticError, LvsModelError) as e:
             # whether clean schemas are accepted is C13's clause; here a schema without a compiled model cannot be judged
             ctx.event('schema-rejected-not-judged')
@@ -103,7 +106,7 @@ def run(ctx):
             ctx.report(f'compile-raises:{type(e).__name__}@{raising_site(e)[0]}', f'{e!r}', w)
             continue
         try:
-            loaded = Checker.load(checker.save(), lvs.USER_FNS)
+            loaded = Checker.load(checker.save(), FNS_LIB)
         except Exception as e:   # noqa
             ctx.report(f'save-load-raises:{type(e).__name__}@{raising_site(e)[0]}', f'{e!r}', w)
             loaded = None
@@ -113,12 +116,12 @@ def run(ctx):
             m2 = bny.LvsModel.parse(checker.save())
             table = {str(s_.tag): s_.ident for s_ in m2.symbols}
             m2.symbols = []
-            nosym = Checker.load(bytes(m2.encode()), lvs.USER_FNS)
+            nosym = Checker.load(bytes(m2.encode()), FNS_LIB)
             nosym.nvf_symbols = table
             ctx.event('model-without-symbol-table')
         except Exception as e:   # noqa
             ctx.report(f'symbol-less-model-raises:{type(e).__name__}@{raising_site(e)[0]}', f'loading the model without its optional symbol table raised {e!r}', w)
-        ref = lvs.Ref(schema, lvs.USER_FNS)
+        ref = lvs.Ref(schema, FNS_REF)
         alphabet = [lvs.lit(t) for t in ref.literals()] + FRESH
         L = min(ref.max_len() + 1, 7)
         ctx.event('schema')
